@@ -395,7 +395,7 @@ func runAll(dir string, qs []*Query, timeout time.Duration, par int) []Verdict {
 			if !q.Cover && v.Result != "unsat" && q.FalseGoal {
 				v.Result = "sat"
 				v.Raw = "goal is literally false on this path and the path is not refuted: " + q.Goal
-			} else if !q.Cover && v.Result != "unsat" {
+			} else if !q.Cover && v.Result != "unsat" && !(v.Result != "sat" && os.Getenv("GOBV_NO_REPLAY") != "") {
 				// retry once with 6x timeout and ask for a model
 				v2 := runQuery(dir, q, 3*timeout, true)
 				v2.Secs += v.Secs
